@@ -91,6 +91,8 @@ def finish(check: Check, floors: dict[str, int], root: str, selftest: dict | Non
     """Print the verdict, write evidence and replay files, return the exit code."""
     prop = check.prop
     evid_dir = os.path.join(VERIF, "evidence")
+    if os.environ.get("VERIF_SCRATCH_EVIDENCE"):  # trial runs against a seeded change: keep the committed evidence intact
+        evid_dir = os.path.join("/tmp", "verif-scratch-evidence")
     replay_dir = os.path.join(evid_dir, "replays")
     os.makedirs(replay_dir, exist_ok=True)
 
